@@ -6,6 +6,7 @@ import (
 	"fmt"
 	"sort"
 	"strings"
+	"sync"
 	"sync/atomic"
 
 	"github.com/tevino/abool"
@@ -16,6 +17,13 @@ import (
 // validity flag, release and expertise level at their zero value, persistence
 // configured to filePath ("" = no persistence).
 func VerifReset(filePath string) {
+	// A panic inside the package can leave one of its locks held (e.g.
+	// NewPerspective holds optionsLock without defer); the harness is
+	// single-threaded between histories, so the locks are simply replaced.
+	optionsLock = sync.RWMutex{}
+	validityFlagLock = sync.RWMutex{}
+	loadedConfigValidationErrorsLock = sync.Mutex{}
+
 	optionsLock.Lock()
 	options = make(map[string]*Option)
 	optionsLock.Unlock()
